@@ -384,6 +384,10 @@ def fresh_from_reports(kind, obs):
     return f
 
 
+def case_is_sibling(case):
+    return False
+
+
 def w_history(case):
     kind = case[0]
     history = case[1:]
@@ -461,6 +465,31 @@ def w_history(case):
                     'what it reports in: %s' % diff, 'history': lab, 'expected': {k: b[k] for k in diff},
                     'observed': {k: a[k] for k in diff},
                     'behaviour': 'consistency_' + '+'.join(diff)})
+    # (2b) a route is part of the net configuration, the way to it is not: the same
+    # history with an indirect route to the same compartment set just before the
+    # last direct one ends in the same model (names included)
+    last_d = max([i for i, op in enumerate(history)
+                  if op.startswith('admD')] or [-1])
+    if last_d >= 0 and 'outD' not in history[:last_d] and not case_is_sibling(case):
+        sib = list(history[:last_d]) + [
+            'admI' + history[last_d][4:]] + list(history[last_d:])
+        m2 = fresh(kind)
+        mach2 = Machine(kind)
+        if mach2.outs is None:
+            mach2.outs = to_myokit_outputs(kind, m2.outputs())
+        scratch = []
+        for op in sib:
+            m2 = apply_op(kind, m2, mach2, op, [], scratch, 'sibling')
+        a, b = obs_key(obs), obs_key(observe(m2))
+        diff = obs_diff(a, b)
+        if diff:
+            viol.append({
+                'sub': 'route_history', 'message': 'the model differs from the one '
+                'reached when an indirect route was set just before the last direct '
+                'one (%s) in: %s' % ('>'.join(sib), diff), 'history': lab,
+                'expected': {k: b[k] for k in diff},
+                'observed': {k: a[k] for k in diff},
+                'behaviour': 'route_history_' + '+'.join(diff)})
     # (3) copies are unaffected by what happened to the other afterwards
     for other, at_copy, role in others:
         now = obs_key(observe(other))
@@ -929,3 +958,4 @@ META['level_text'] += (
     ' Also: a plain SBMLModel under the parameter-fixing wrapper (flags as bool / n'
     'umpy bool / integer), outputs in the dose compartment and refused calls, zero-'
     'amount regimens, two models handed out by one ModelLibrary object.')
+META['level_text'] += (' Wave 9: route-history oracle (an indirect route set just before the last direct one does not change the model, names included).')
